@@ -283,3 +283,151 @@ class C06(TraceCheck):
 E.register(C01())
 E.register(C04())
 E.register(C06())
+
+
+# ---------------------------------------------------------------------------------------
+# proversim checks
+import random as _random
+
+from . import proversim as PV
+
+REAL_PROVER = ("real: pysnark/runtime.py, boolean.py, fixedpoint.py, branching.py, array.py, pack.py and the "
+               "snarkjs / zkinterface backend modules (fresh import per honest or shadow run); the verifier is "
+               "the checker's own evaluation of every recorded constraint modulo the hard-coded prime; stub: "
+               "`flatbuffers` (import only, for the zkinterface backends)")
+
+VALUE_OPS = {"let": 10, "assert": 0, "guarded": 0, "ite_call": 0, "set_ie": 0, "val": 0, "array": 0,
+             "aset": 0, "aget": 0, "fxp": 1.0, "arith": 2, "div": 6, "bits": 5, "cmp": 6, "shift": 1.5,
+             "pow": 1, "unary": 3, "boolop": 3, "check": 4, "ite": 3, "tobits": 2, "tobool": 1}
+
+
+def honest(plan, inputs=None):
+    """Honest run with checks on; None unless it completed with no exception at all."""
+    tr = PV.run_plan(plan, inputs)
+    if tr.outcome != "completed" or tr.caught:
+        return None
+    return tr
+
+
+class ProverCheck(TraceCheck):
+    components = REAL_PROVER
+    toggles = ()
+    shadow_budget = 24
+    wire_budget = 1500
+
+    def cfg(self, rng):
+        return {"backend": rng.choice(W.DICT_BACKENDS), "bitlength": rng.choice([2, 3, 3, 4, 4, 5]),
+                "resolution": rng.choice([0, 1, 2]), "value_bias": "tiny", "max_nesting": 0,
+                "p_try": 0.0, "p_bool_cond": 1.0, "fxp": rng.random() < 0.25}
+
+    def attack_trace(self, case, tr, rng, viol, probes, faults):
+        """Wire-mode search + shadow-mode re-runs on one honest trace; appends to viol."""
+        plan = case["plan"]
+        trace = PV.Trace(tr)
+        base = trace.base_assignment()
+        if trace.unsat(base):
+            probes["honest_trace_unsat_discarded"] = probes.get("honest_trace_unsat_discarded", 0) + 1
+            return trace
+        atk = PV.Attack(trace, PV.plan_consts(plan))
+        b = plan["cfg"]["bitlength"]
+        for lies, v, a, rep in atk.search(rng, b, self.wire_budget):
+            r = v[1]
+            s = dict(r["desc"])
+            s["mode"] = "wire"
+            s["scale"] = atk.scale(v[2], b)
+            s["lie_scale"] = atk.lie_scale(a, b)
+            if any(x["site"] == s for x in viol):
+                continue
+            viol.append({"property": self.prop, "oracle": "second_assignment" if v[0] == "differs" else
+                         "nonboolean_result", "site": s,
+                         "detail": "lies %s (re-derived=%s) satisfy all %d constraints; %s = %d instead of %d" % (
+                             {k: x for k, x in lies.items()}, rep, len(trace.cons), r["name"], v[2], r["value"])})
+        faults["lie-wire"] = faults.get("lie-wire", 0) + atk.evals
+        probes["rederivation_steps"] = probes.get("rederivation_steps", 0) + atk.repairs
+        # shadow mode
+        if not viol and trace.hints:
+            npriv_in = sum(1 for o in trace.operands if o < 0)
+            nsh = 0
+            hint_order = list(range(len(trace.hints)))
+            rng.shuffle(hint_order)
+            for hi in hint_order:
+                if nsh >= self.shadow_budget or viol:
+                    break
+                k = trace.hints[hi]
+                hv = trace.priv[-k - 1]
+                for cand in (hv + 1, hv - 1, 1 - hv, 0, -hv):
+                    if cand == hv:
+                        continue
+                    if nsh >= self.shadow_budget:
+                        break
+                    nsh += 1
+                    # hint index among PrivVal calls after the inputs = position in trace.priv minus priv inputs
+                    d = PV.run_plan(plan, nocheck=True, hook=PV.shadow_hook(-k - 1 - npriv_in, cand, npriv_in))
+                    if d.outcome != "completed" or d.caught:
+                        probes["shadow_run_crashed"] = probes.get("shadow_run_crashed", 0) + 1
+                        continue
+                    dt = PV.Trace(d)
+                    if dt.kinds != trace.kinds or dt.cons != trace.cons:
+                        probes["shadow_run_other_circuit"] = probes.get("shadow_run_other_circuit", 0) + 1
+                        continue
+                    da = dt.base_assignment()
+                    if any(da[o] != base[o] for o in trace.operands):
+                        continue
+                    faults["lie-shadow"] = faults.get("lie-shadow", 0) + 1
+                    if dt.unsat(da):
+                        continue
+                    for r in trace.results:
+                        val = dt.ev(r["lc"], da)
+                        if val != r["value"] or (r["t"] == "B" and val not in (0, 1)):
+                            s = dict(r["desc"])
+                            s["mode"] = "shadow"
+                            s["scale"] = atk.scale(val, b)
+                            s["lie_scale"] = "shadow"
+                            viol.append({"property": self.prop, "oracle": "second_assignment", "site": s,
+                                         "detail": "shadow lie hint#%d := %d: all constraints satisfied, %s = %d "
+                                                   "instead of %d" % (-k - 1 - npriv_in, cand, r["name"], val,
+                                                                      r["value"])})
+                            break
+                    if viol:
+                        break
+        return trace
+
+
+class C02(ProverCheck):
+    name = "C02"
+    prop = "C02"
+    budget = {"quick": 400, "thorough": 12000}
+    weights = VALUE_OPS
+    rule = ("plans of 1-3 value-returning operations (every operator, the three operand-kind combinations, "
+            "selection, bit round trips, boolean and fixed-point operators) at bitlength 2-5 on tiny/boundary "
+            "operands; one honest run, then dishonest executions: every hint wire x ~40 candidate values "
+            "(small deltas, powers of two, 0/1/-1, 1-v, -v, field quotients x*y^-1 of operand and constant "
+            "values) with and without forward re-derivation of dependent hints, adjacent pairs, and shadow "
+            "lies re-executed through the library; violation = all constraints satisfied with the operands "
+            "unchanged and a result different (or a boolean result not 0/1). non-trivial = distinct plans "
+            "with an honest satisfied trace and at least one hint wire attacked")
+
+    def gen(self, rng, i, tier):
+        cfg = self.cfg(rng)
+        plan = P.generate(rng, cfg, self.weights, n_stmts=rng.choice([1, 1, 2, 3]))
+        return {"plan": plan, "seed": rng.randrange(1 << 30)}
+
+    def run(self, case):
+        plan = case["plan"]
+        rng = _random.Random(case["seed"])
+        tr = honest(plan)
+        probes, faults, viol = {}, {}, []
+        if tr is None:
+            return {"violations": [], "digest": "discard", "nontrivial": None, "events": 0, "faults": {},
+                    "probes": {"honest_run_raised_discarded": 1}, "sigs": [], "discarded": True}
+        trace = self.attack_trace(case, tr, rng, viol, probes, faults)
+        nt = P.plan_digest(plan) if trace.hints and not probes.get("honest_trace_unsat_discarded") else None
+        return {"violations": viol, "digest": E.sha((tr.digest_material(), [v["detail"] for v in viol],
+                                                     faults, probes)),
+                "nontrivial": nt, "events": tr.steps + faults.get("lie-wire", 0) + faults.get("lie-shadow", 0),
+                "faults": faults, "probes": probes,
+                "sigs": [E.sha((r["desc"].get("op"), r["desc"].get("kinds"), plan["cfg"]["bitlength"]))
+                         for r in trace.results], "outcome": tr.outcome}
+
+
+E.register(C02())
